@@ -193,6 +193,20 @@ func (g *Gen) derefOK(v ssa.Value) bool {
 	return false
 }
 
+// wrap1 wraps a value known to be at most one modulus away from the range of
+// b (sums/differences of in-range operands, same-width conversions): no mod.
+func wrap1(e Term, b *types.Basic) Term {
+	lo, hi := intRange(b)
+	mod := new(big.Int).Add(new(big.Int).Sub(hi, lo), big.NewInt(1))
+	return fmt.Sprintf("(ite (> %s %s) (- %s %s) (ite (< %s %s) (+ %s %s) %s))", e, intLit(hi), e, intLit(mod), e, intLit(lo), e, intLit(mod), e)
+}
+
+func sameWidth(a, b *types.Basic) bool {
+	la, ha := intRange(a)
+	lb, hb := intRange(b)
+	return new(big.Int).Sub(ha, la).Cmp(new(big.Int).Sub(hb, lb)) == 0
+}
+
 func wrapTerm(e Term, b *types.Basic) Term {
 	lo, hi := intRange(b)
 	mod := new(big.Int).Add(new(big.Int).Sub(hi, lo), big.NewInt(1))
@@ -223,6 +237,9 @@ func (g *Gen) binop(x *ssa.BinOp, st *State) Term {
 		lo, hi := intRange(bi)
 		g.rootGen().deferObl("safety", "ovf", g.reach[g.curBlock],
 			fmt.Sprintf("(and (<= %s %s) (<= %s %s))", intLit(lo), e, e, intLit(hi)), "")
+		if x.Op != token.MUL {
+			return wrap1(e, bi)
+		}
 		return wrapTerm(e, bi)
 	case token.QUO, token.REM:
 		if bi == nil {
@@ -379,6 +396,15 @@ func (g *Gen) unop(x *ssa.UnOp, st *State) *State {
 		v := g.load(st, p)
 		g.define(x, v)
 		g.assert(g.u.rangeFact(g.vals[x], x.Type(), g.top(st)))
+		if gl, ok := x.X.(*ssa.Global); ok {
+			// immutable global []byte: its contents are the constant gb.<name>
+			if c := g.globalBytes(gl.Pkg.Pkg.Path(), gl.Name(), x.Type()); c != "" {
+				sv := g.vals[x]
+				mem := g.read(st, g.u.ElemComp(types.Typ[types.Uint8]))
+				g.assert(fmt.Sprintf("(= (mk.bytes (s.len %s) (win (select %s (s.base %s)) (s.off %s) (s.len %s))) %s)", sv, mem, sv, sv, sv, c))
+				g.abstractedOnce("immutable-global-bytes: package-level []byte variables never written after init keep their contents (" + gl.Name() + ")")
+			}
+		}
 		if fv, ok := x.X.(*ssa.FreeVar); ok {
 			_ = fv
 		}
@@ -413,7 +439,10 @@ func (g *Gen) convert(x *ssa.Convert) Term {
 	from, to := types.Unalias(x.X.Type()).Underlying(), types.Unalias(x.Type()).Underlying()
 	v := g.val(x.X)
 	if tb := basicInt(x.Type()); tb != nil {
-		if basicInt(x.X.Type()) != nil {
+		if fb := basicInt(x.X.Type()); fb != nil {
+			if sameWidth(fb, tb) {
+				return wrap1(v, tb)
+			}
 			return wrapTerm(v, tb)
 		}
 		if fb, ok := from.(*types.Basic); ok && fb.Kind() == types.UnsafePointer {
@@ -506,6 +535,10 @@ func (g *Gen) typeAssert(x *ssa.TypeAssert, st *State) *State {
 func (g *Gen) allocRef(st *State) (Term, *State) {
 	r := g.fresh("ref", "Int")
 	g.assert(fmt.Sprintf("(> %s %s)", r, g.top(st)))
+	if _, ok := g.prog.Specs.Funcs["dbmem"]; ok {
+		// Go allocations are never database-owned memory
+		g.assert(fmt.Sprintf("(not (f.dbmem %s))", r))
+	}
 	return r, g.update(st, TopKey, r)
 }
 
